@@ -33,10 +33,22 @@ def out_name(spec, rect):
     return q + G.a1(r1, c1) if (r1, c1) == (r2, c2) else q + G.a1(r1, c1) + ':' + G.a1(r2, c2)
 
 
-def partial_values(spec, dirpath, rects):
+LOAD_MODES = ['finish', 'no-second-complete', 'two-calls']
+
+
+def partial_values(spec, dirpath, rects, mode='finish'):
+    """from_ranges(outs) IS complete(outs): it pulls the whole cone in, so the complete() inside finish() has nothing to add
+    ('no-second-complete' switches it off), and outputs may be handed over in several calls ('two-calls')."""
     m = sut.ExcelModel()
     m.basedir = dirpath
-    m.from_ranges(*[out_name(spec, r) for r in rects]).finish()
+    names = [out_name(spec, r) for r in rects]
+    if mode == 'no-second-complete':
+        m.from_ranges(*names).finish(complete=False)
+    elif mode == 'two-calls' and len(names) > 1:
+        m.from_ranges(*names[:1])
+        m.from_ranges(*names[1:]).finish()
+    else:
+        m.from_ranges(*names).finish()
     return m, G.flatten(m.calculate())
 
 
@@ -90,8 +102,16 @@ def check_spec(case):
                     b, s, r, c = cell['at']
                     r2, c2 = cell.get('arr', [r, c])
                     outsets.append([[b, s, r, c, r2, c2]])
+        outs_mode = {}
         for outs in case.get('outsets', []):
-            outsets.append(outs)
+            if case.get('all_modes'):
+                # fixed shapes: every output set under every loading sequence
+                for md in LOAD_MODES:
+                    o2 = list(outs)
+                    outs_mode[id(o2)] = md
+                    outsets.append(o2)
+            else:
+                outsets.append(outs)
         heavy = any(f.startswith('form:wholecol') for f in G.features_of(spec))  # 2^20-row operands: free each partial model before the next
         m = None
         for outs in outsets:
@@ -104,8 +124,12 @@ def check_spec(case):
             if not keys:
                 continue
             form = form_of_path(spec, keys)
+            mode = outs_mode.get(id(outs)) or LOAD_MODES[(n + len(spec['cells'])) % 3]
+            if mode == 'two-calls' and len(outs) < 2:
+                mode = 'no-second-complete'
+            form = form if mode == 'finish' else form + '|' + mode
             try:
-                m, (flat, conf2) = partial_values(spec, d, outs)
+                m, (flat, conf2) = partial_values(spec, d, outs, mode)
             except sut.Watchdog:
                 raise
             except Exception as ex:
@@ -128,10 +152,11 @@ def check_spec(case):
                 if bad:
                     fails.append(('closure|%s|%s' % (form, bad), 'outputs %s: %s partial=%r full=%r reference=%r' % (
                         [out_name(spec, r) for r in outs], G.node_id(spec, k), got, ref, exp)))
-            if form not in ('literal', 'cell-same', 'range-same'):
+            if form.split('|')[0] not in ('literal', 'cell-same', 'range-same'):
                 nts.append(('outs', outs))
-            labels.append('path:' + form)
+            labels.append('path:' + form.split('|')[0])
             labels.append('outs:%d' % min(len(outs), 4))
+            labels.append('load:' + mode)
     seen, out = set(), []
     for s_, d_ in fails:
         if s_ not in seen:
@@ -167,7 +192,7 @@ def _outsets(draw, spec):
 
 def _specs(tier):
     # links: references to the other book in the numbered form of xlsx files ([k]Sheet!A1 + external link parts)
-    return G.specs(tier, max_books=2, wholecols=False).flatmap(
+    return G.specs(tier, max_books=2, wholecols=False, anchor_rate=3, fname_rate=3, fname_names=True, name_rate=3).flatmap(
         lambda spec: st.tuples(_outsets(spec), st.one_of(st.none(), st.integers(0, 7)), st.booleans()).map(
             lambda ol: {'k': 'spec', 'spec': spec, 'singletons': True, 'outsets': ol[0], 'links': ol[1] if len(spec['books']) > 1 else None,
                         'stale': ol[2]}))
@@ -212,6 +237,30 @@ def _multi_array_specs():
     return out
 
 
+def _name_chain_specs():
+    """Fixed shapes (added after seed c15-a-r5): a defined name whose formula uses another defined name (TOTAL = SUM(RATES)),
+    in the book of the requested output or in a second book; requested: a cell that reads the name, alone and next to an
+    unrelated output."""
+    out = []
+    for nb in (1, 2):
+        for links in ((None,) if nb == 1 else (None, 1)):
+            B = nb - 1  # the book holding the names
+            books = [{'name': 'b0.xlsx', 'sheets': ['S1']}] + ([{'name': 'b1.xlsx', 'sheets': ['Data']}] if nb == 2 else [])
+            cells = [{'at': [B, 0, r, 1], 'v': float(r)} for r in (1, 2, 3)] + [{'at': [0, 0, 1, 5], 'v': 7.0}]
+            tot = ['fname', 0, ['fn', 'SUM', ['name', 0]]]
+            if nb == 2:
+                cells.append({'at': [1, 0, 1, 3], 'f': ['bin', '*', tot, ['num', 2.0]]})
+                cells.append({'at': [0, 0, 1, 3], 'f': ['bin', '+', ['ref', [1, 0, 1, 3]], ['num', 1.0]]})
+            else:
+                cells.append({'at': [0, 0, 1, 3], 'f': ['bin', '*', tot, ['num', 2.0]]})
+            cells.append({'at': [0, 0, 2, 5], 'f': ['bin', '+', ['ref', [0, 0, 1, 5]], ['num', 1.0]]})
+            spec = {'books': books, 'cells': cells, 'names': [{'name': 'TOTAL_IN', 'rect': [B, 0, 1, 1, 3, 1]}],
+                    'fnames': [{'name': G.FNAME_POOL[0], 'f': tot[2], 'book': B}]}
+            outs = [[[0, 0, 1, 3, 1, 3]], [[0, 0, 2, 5, 2, 5], [0, 0, 1, 3, 1, 3]]]
+            out.append({'k': 'spec', 'spec': spec, 'singletons': False, 'outsets': outs, 'links': links, 'all_modes': True})
+    return out
+
+
 def _spill_outside_specs():
     """Fixed shapes (added after seed c15-b-r3): an array formula whose area runs beyond the rectangle of STORED cells of its
     sheet (only the anchor is stored, as openpyxl writes it); the requested outputs, on another sheet, read cells / ranges that
@@ -252,4 +301,5 @@ def parts(tier, seed):
         ('hyp', 'wholecol', 4 if q else 160, 1, {'nproc': 6}),
         ('enum', 'multi-array', _multi_array_specs(), 1, False),
         ('enum', 'spill-outside-stored-area', _spill_outside_specs(), 1, False),
+        ('enum', 'names-through-names', _name_chain_specs(), 1, False),
     ]
